@@ -47,6 +47,7 @@ type sess struct {
 	closed     bool
 	// options
 	skipImpactCheck bool
+	light           bool // skip the per-datagram state comparison (bulk traffic); endBulk() compares once
 }
 
 func newSess(t TB, prop string, temp ref.Key, now uint32) *sess {
@@ -262,6 +263,12 @@ func (s *sess) datagram(b []byte, what string) ref.Verdict {
 		s.fail("datagram not processed: %v", err)
 	}
 	s.checkPanics("datagram")
+	if s.light {
+		if logged {
+			s.reportsLen += 80
+		}
+		return v
+	}
 	snap := s.S.VerifSnapshot()
 	s.compare(snap, "datagram")
 	// persisted report log
@@ -284,6 +291,17 @@ func (s *sess) datagram(b []byte, what string) ref.Verdict {
 	}
 	s.reportsLen = fi.Size()
 	return v
+}
+
+// endBulk ends light mode: one full comparison and the report-log length.
+func (s *sess) endBulk() {
+	s.t.Helper()
+	s.light = false
+	s.compare(s.S.VerifSnapshot(), "bulk traffic")
+	fi, err := os.Stat(filepath.Join(s.dir, "equipment-reports.dat"))
+	if err != nil || fi.Size() != s.reportsLen {
+		s.fail("persisted report log has %d bytes after bulk traffic, expected %d", fi.Size(), s.reportsLen)
+	}
 }
 
 // modelRotate rotates the model once and remembers the impact rates the
